@@ -102,8 +102,9 @@ def parse_harness_files():
                     _set(cur, k, v)
             elif cur is not None:
                 m = re.match(r'\s*(pub(\([a-z]+\))?\s+)?fn\s+([A-Za-z0-9_]+)\s*\(', line)
-                if m:
-                    cur.name = m.group(3)
+                m2 = re.match(r'\s*[a-z_0-9]+!\(\s*([A-Za-z0-9_]+)\s*[,)]', line)
+                if m or m2:
+                    cur.name = m.group(3) if m else m2.group(1)
                     harnesses.append(cur)
                     cur = None
         files.append(meta)
@@ -318,7 +319,8 @@ def classify(h, r):
             return 'fail', unwind_fail, ['loop bound = claimed maximum work exceeded']
         return 'inconclusive', unwind_fail, ['unwinding assertion failed: bound too small for this tree']
     if st != 'Success':
-        return 'inconclusive', [], ['kani status %s without failing check (%s)' % (st, err.get('error_type'))]
+        odd = [c for c in checks if c['status'] not in ('Success', 'Satisfied', 'Unreachable', 'Failure', 'Unsatisfiable')]
+        return 'inconclusive', odd, ['kani status %s without failing check (%s): %s' % (st, err.get('error_type'), '; '.join('%s=%s' % (check_key(c), c['status']) for c in odd[:6]))]
     if unsat_covers:
         return 'inconclusive', unsat_covers, ['vacuity witness not satisfied: ' + '; '.join(c['description'] for c in unsat_covers)]
     return 'pass', [], notes
